@@ -233,6 +233,7 @@ def run(res, tier, seed):
     run_constructors(res, rng, n, limit)
     run_repr(res, rng, n, limit)
     run_transform_general(res, rng, n, limit)
+    run_transform_both(res, rng, n, limit)
 
 
 # ---------------------------------------------------------------- cmd 28: repr as the model's token list
@@ -475,3 +476,150 @@ def run_transform_general(res, rng, n, limit):
     mod = runner.run_model(cmds)
     for c, a, b in zip(cmds, obs, mod):
         res.compare(c, a, b, 'cmd_transform_general')
+
+
+# ---------------------------------------------------------------- cmd 31: transform with both functions arbitrary
+def node_answer(rng, arity):
+    """an abstract one-level collection meant as the answer for an internal node of the given arity: mostly of that
+    arity, sometimes of another arity, nested, or a bare leaf (all three must be rejected with ValueError)"""
+    r = rng.random()
+    k = arity
+    if r < 0.06:
+        k = max(0, arity + rng.choice([-1, 1, 2]))
+    leaves = [(0, 900 + j) for j in range(k)]
+    kind = rng.choice(['tuple', 'list', 'dict', 'odict', 'ddict', 'deque', 'named', 'custom', 'tuple', 'list'])
+    if kind == 'tuple':
+        h = (1,)
+    elif kind == 'list':
+        h = (2,)
+    elif kind in ('dict', 'odict', 'ddict'):
+        ks = gen.gen_keys(rng, k, rng.choice(['str', 'int', 'stage2']))
+        if len(ks) != k:
+            h = (1,)
+        else:
+            h = (3, *ks) if kind == 'dict' else (4, *ks) if kind == 'odict' else (5, rng.randrange(0, 5), *ks)
+    elif kind == 'deque':
+        h = (6,) if rng.random() < 0.5 else (6, k + rng.randrange(0, 3))
+    elif kind == 'named':
+        h = (7, rng.randrange(0, 4))
+    else:
+        h = (9, rng.randrange(0, 5), rng.randrange(0, 5), (rng.choice([0, 1]),))
+    o = (1, h, *leaves)
+    if 0.06 <= r < 0.10:
+        o = (1, (1,), o) if rng.random() < 0.5 else (1, (2,), *leaves[:-1], (1, (1,), *leaves[-1:])) if leaves else o
+    elif 0.10 <= r < 0.12:
+        o = (0, 899)
+    return o
+
+
+def run_transform_both(res, rng, n, limit):
+    """treespec.transform(f_node, f_leaf) with one answer per node in call order (the loop visits the node array in
+    order): the array-level pass of TransformArr.v (arr_transform_all) against the implementation; oracles: the
+    functions are called once per node of their class in array order with that node's one-level / leaf treespec;
+    identity answers give back an identical treespec; the result keeps the children's structure."""
+    cmds, obs = [], []
+    for i in range(n):
+        c0 = gen.gen_cfg(rng, limit)
+        g = gen.TreeGen(rng, world.STRUCTSEQ_ARITY, max_nodes=rng.choice([3, 6, 12]), max_depth=rng.choice([2, 3, 5]),
+                        max_arity=rng.choice([2, 3, 4]))
+        o0 = g.tree()
+        gi = gen.TreeGen(rng, world.STRUCTSEQ_ARITY, max_nodes=rng.choice([1, 4, 9]), max_depth=rng.choice([1, 3, 4]),
+                         max_arity=rng.choice([1, 2, 4]))
+        name = rng.choice([1, 2, 3]) if c0[1] == 0 else c0[1]
+        mode = rng.choice(['leaf', 'node', 'both', 'both', 'identity'])
+        with World(c0) as w:
+            tree = realize(o0, random.Random(i), {})
+            kw0 = w.kw()
+            f0 = attempt(lambda: optree.tree_flatten(tree, **kw0))
+            if f0[0] != 0:
+                res.count('transform_both_outer_not_flattenable')
+                continue
+            s0 = f0[1][1]
+            nodes = s0.__getstate__()[0]
+            answers, specs, bad = [], [], False
+            for j, nd in enumerate(nodes):
+                is_leaf = int(nd[0]) == int(optree.PyTreeKind.LEAF)
+                absent = (is_leaf and mode == 'node') or (not is_leaf and mode == 'leaf')
+                if absent or mode == 'identity' or rng.random() < 0.35:
+                    answers.append(())
+                    specs.append(None)
+                    continue
+                nsj = rng.choice([0, name, name]) if rng.random() < 0.97 else rng.choice([0, 1, 2, 3])
+                nilj = c0[0] if rng.random() < 0.985 else 1 - c0[0]
+                ci = (nilj, nsj, 0, c0[3], c0[4], c0[5])
+                oi = gi.tree() if is_leaf else node_answer(rng, nd[1])
+                wi = World(ci)
+                ti = realize(oi, random.Random(1000 * i + j), {})
+                kwi = wi.kw()
+                fi = attempt(lambda: optree.tree_flatten(ti, **kwi))
+                if fi[0] != 0:
+                    bad = True
+                    break
+                answers.append((ci, oi))
+                specs.append(fi[1][1])
+            if bad:
+                res.count('transform_both_answer_not_flattenable')
+                continue
+            case = (31, c0, o0, tuple(answers))
+            calls = []
+            it = iter(specs)
+
+            def make(which):
+                def f(arg):
+                    calls.append((which, arg))
+                    a = next(it)
+                    return arg if a is None else a
+                return f
+            # an absent function consumes its (None) answers without being called
+            def call():
+                fn = None if mode == 'leaf' else make('node')
+                fl = None if mode == 'node' else make('leaf')
+                if fn is None or fl is None:
+                    # keep the answer iterator aligned: the absent function's positions hold None
+                    order = [int(nd[0]) == int(optree.PyTreeKind.LEAF) for nd in nodes]
+                    seq = [sp for sp, lf in zip(specs, order) if (lf and fl is not None) or (not lf and fn is not None)]
+                    it2 = iter(seq)
+
+                    def mk(which):
+                        def f(arg):
+                            calls.append((which, arg))
+                            a = next(it2)
+                            return arg if a is None else a
+                        return f
+                    fn = None if fn is None else mk('node')
+                    fl = None if fl is None else mk('leaf')
+                return s0.transform(fn, fl)
+            r = attempt(call)
+            res.evaluations += 1
+            res.count('transform_both_mode_' + mode)
+            if r[0] == 0:
+                out = r[1]
+                res.count('transform_both_ok')
+                want_calls = [('leaf' if int(nd[0]) == int(optree.PyTreeKind.LEAF) else 'node') for nd in nodes]
+                want_calls = [c for c in want_calls if not ((c == 'leaf' and mode == 'node') or (c == 'node' and mode == 'leaf'))]
+                if [c[0] for c in calls] != want_calls:
+                    res.fail('transform does not call f_node / f_leaf once per node of its class in array order', case)
+                elif any((c[0] == 'leaf') != c[1].is_leaf() or (c[0] == 'node' and not c[1].is_one_level()) for c in calls):
+                    res.fail('transform hands a function something else than the leaf / one-level treespec of the node', case)
+                for sp, nd in zip(specs, nodes):
+                    if sp is not None and int(nd[0]) != int(optree.PyTreeKind.LEAF) and \
+                            not (sp.is_one_level() and sp.num_children == nd[1]):
+                        res.fail('transform accepted, for an internal node, an answer that is not a one-level treespec of '
+                                 'the node\'s arity', case, f'arity {nd[1]}: {sp!r}')
+                        break
+                if all(sp is None for sp in specs):
+                    if out != s0 or out.__getstate__() != s0.__getstate__() or out.paths() != s0.paths():
+                        res.fail('transform with identity functions is not the identity', case, f'{out!r} vs {s0!r}')
+                    res.count('transform_both_identity')
+                if all(sp is None for sp, nd in zip(specs, nodes) if int(nd[0]) == int(optree.PyTreeKind.LEAF)):
+                    # only headers were replaced: counts are unchanged
+                    if out.num_leaves != s0.num_leaves or out.num_nodes != s0.num_nodes:
+                        res.fail('transform replacing only node headers changed the counts', case)
+            else:
+                res.count('transform_both_err_%s' % (r[0],))
+        cmds.append(case)
+        obs.append((0, res_spec(r)))
+        res.note_input(case, s0.num_nodes >= 3)
+    mod = runner.run_model(cmds)
+    for c, a, b in zip(cmds, obs, mod):
+        res.compare(c, a, b, 'cmd_transform_both')
